@@ -114,6 +114,9 @@ def list_graphs():
     yield ("list:head-twice", [[S1, P1, h], [S2, P1, h]] + mklist(m[:2], h, "l"), True)
     yield ("list:extra-prop", [[S1, P1, h]] + mklist(m[:2], h, "l") + [[Bn("l1"), P2, L("x")]], True)
     yield ("list:typed-cell", [[S1, P1, h]] + mklist(m[:2], h, "l") + [[h, TYPE, I(RDF + "List")]], True)
+    yield ("list:cell-typed-other", [[S1, P1, h]] + mklist(m[:2], h, "l") + [[Bn("l1"), TYPE, I(EX + "Special")]], True)
+    yield ("list:cell-prop-to-List", [[S1, P1, h]] + mklist(m[:2], h, "l") + [[Bn("l1"), P2, I(RDF + "List")]], True)
+    yield ("list:head-typed-other", [[S1, P1, h]] + mklist(m[:3], h, "l") + [[h, TYPE, I(EX + "Special")], [Bn("l2"), P2, I(RDF + "List")]], True)
     yield ("list:nested", [[S1, P1, h]] + mklist([Bn("k0"), L("z")], h, "l") + mklist(m[:1], Bn("k0"), "k"), True)
     yield ("list:bnode-member", [[S1, P1, h]] + mklist([Bn("x")], h, "l") + [[Bn("x"), P2, L("v")]], True)
     yield ("list:shared-tail", [[S1, P1, h], [S2, P1, Bn("g0")], [Bn("g0"), FIRST, L("g")], [Bn("g0"), REST, Bn("l1")]] + mklist(m[:2], h, "l"), True)
